@@ -102,6 +102,7 @@ pub fn check(rep: &mut Rep, d: i128, s1: TimeScale, x: i128) {
         if s1 != s2 {
             rep.class("conv/cross-scale");
         }
+        rep.log_event("conv", || format!("\"d\":\"{}\",\"s1\":\"{:?}\",\"s2\":\"{:?}\",\"want\":\"{}\"", d, s1, s2, want));
         let det = || format!("({}, {:?}).to_time_scale({:?})", d, s1, s2);
         match guard(|| {
             let r = e.to_time_scale(s2);
